@@ -258,3 +258,22 @@ func init() {
 		return rtIface(types.NewSlice(a[0].(Iface).V.(RT).T))
 	}
 }
+
+// log: output is not part of any property; a Logger is an opaque object and printing is a no-op.
+// runtime.Caller (used by the debug helpers for file:line) returns a fixed location.
+func init() {
+	intrinsics["log.New"] = func(e *Engine, a []Value) Value {
+		c := new(Value)
+		*c = Struct{}
+		return c
+	}
+	for _, m := range []string{"Printf", "Println", "Print", "Output", "SetOutput", "SetFlags", "SetPrefix", "Fatalf", "Panicf"} {
+		intrinsics["(*log.Logger)."+m] = mNop
+	}
+	intrinsics["(*log.Logger).Output"] = func(e *Engine, a []Value) Value { return Iface{} }
+	intrinsics["log.Printf"] = mNop
+	intrinsics["log.Println"] = mNop
+	intrinsics["runtime.Caller"] = func(e *Engine, a []Value) Value {
+		return Tuple{PtrInt{}, Str{S: "/repo/unknown.go"}, mkInt(64, 1), Bool{V: true}}
+	}
+}
